@@ -258,7 +258,7 @@ func c11RunScenario(t *testing.T, idx int, sc c11Scenario) c11ScOut {
 		}
 		var obs [][]int
 		timeout := false
-		deadline := time.Now().Add(1200 * time.Millisecond)
+		deadline := time.Now().Add(4 * time.Second)
 		for {
 			obs = observe()
 			if ai < len(sc.Expect) && c11ObsEq(obs, sc.Expect[ai]) {
@@ -351,14 +351,19 @@ func TestVerifC11Stress(t *testing.T) {
 					_ = sys.Kill(ctx, fmt.Sprintf("nm%d", n))
 				}
 				// wait until the death watch removed every stopped node
-				c11WaitFor(func() bool {
+				reaped := c11WaitFor(func() bool {
 					for n := 0; n < names; n++ {
 						if _, ok := sys.tree().nodeByName(fmt.Sprintf("nm%d", n)); ok {
 							return false
 						}
 					}
 					return true
-				}, 2*time.Second)
+				}, 5*time.Second)
+				if !reaped {
+					// the race with the death watch is the listed finding, not what this phase is about
+					w.put(c11StressOut{Round: round, Kind: kind, Callers: callers, Names: names, Phase: "respawn-skipped"})
+					continue
+				}
 			}
 			var mu sync.Mutex
 			got := make([][]*PID, names)
